@@ -373,16 +373,20 @@ example : (∀ y ∈ [0x34#8, 0x31#8], isXDigit y = true) ∧ isXDigit (byteAt [
 
 /-- **C11 (character constants).**  A constant whose body is one source character (any code point up to U+10FFFF other
     than NUL and the backslash, written in UTF-8) yields that code point and ends at the closing quote.  The value stored
-    for each prefix (`charPrefixes`: plain `(char)` cast, `u` `& 0xffff`, `L`/`U` unchanged) is: the `char` value
+    for each prefix (`charPrefixes`, whose post-processing column is pinned by the last conjunct: plain `(char)` cast, `u` `& 0xffff`,
+    `L` unchanged, `U` `(uint32_t)` i.e. modulo 2^32) is: the `char` value
     converted to `int` for a one-byte value (6.4.4.4p10: `'\377'` is -1 where `char` is signed), the value itself for a
-    `char16_t` value, and the `int` itself for `L`/`U` (type `int` / `unsigned int`: `wchar_t`, `char32_t`). -/
+    `char16_t` value, the `int` itself for `L` (type `int`: `wchar_t`, signed), and for `U` the 32-bit value ZERO-extended
+    (type `unsigned int`: `char32_t`; `U'\xFFFFFFFF'` is 4294967295, also in `#if`, not -1). -/
 theorem C11_char_const (pre post : List Byte) (c : BitVec 32) (hc : c.toNat < 0x110000) (h0 : c.toNat ≠ 0)
     (h92 : c.toNat ≠ 92) :
     readCharLiteral (pre ++ 39#8 :: (encodeUtf8 c ++ 39#8 :: post)) pre.length = .ok (c, pre.length + 1 + utf8Len c.toNat) ∧
     (∀ n, n < 256 → charPost .castChar (BitVec.ofNat 32 n) = BitVec.ofInt 64 (if n < 128 then (n : Int) else (n : Int) - 256)) ∧
     (∀ v : BitVec 32, v.toNat < 0x10000 → (charPost (.mask 0xFFFF) v).toNat = v.toNat) ∧
-    (∀ v : BitVec 32, (charPost .none v).toInt = v.toInt) :=
-  ⟨readCharLiteral_char pre post c hc h0 h92, charPost_values.1, charPost_values.2.1, charPost_values.2.2⟩
+    (∀ v : BitVec 32, (charPost .none v).toInt = v.toInt) ∧
+    (∀ v : BitVec 32, (charPost (.mask 0xFFFFFFFF) v).toNat = v.toNat) ∧
+    charPrefixes.map (fun e => (e.1, e.2.2)) = [([], .castChar), ([117], .mask 0xFFFF), ([76], .none), ([85], .mask 0xFFFFFFFF)] :=
+  ⟨readCharLiteral_char pre post c hc h0 h92, charPost_values.1, charPost_values.2.1, charPost_values.2.2, charPost_mask32, by decide⟩
 
 example : (0x1F600#32).toNat < 0x110000 ∧ (0x1F600#32).toNat ≠ 0 ∧ (0x1F600#32).toNat ≠ 92 := by decide
 
